@@ -56,10 +56,14 @@ def _layout_lock(ctx, cl):
             top = top._parent
         if init.node.body.index(top) > cfg_idx:
             gs = [(norm(t), pol) for t, pol in guards(s)]
-            ok = norm(s.value) == 'layout' and any(t == 'layout is not None' and pol for t, pol in gs)
-            ctx.check(ok, 'LOCK', 'PLSSDesc.__init__: the layout keyword overrides the config only when given',
-                      detail_bad=f"`{norm(s)}` under {gs}: a layout given in the config string is lost",
-                      key="LOCK|PLSSDesc.__init__|layout", where=common.loc(init, s))
+            given = any(t == 'layout is not None' and pol for t, pol in gs)
+            uses = {x.id for x in ast.walk(s.value) if isinstance(x, ast.Name)}
+            # bad: the store is not conditional on the keyword being given, or stores something else
+            ctx.tri(given and norm(s.value) == 'layout', not given or 'layout' not in uses, 'LOCK',
+                    'PLSSDesc.__init__: the layout keyword overrides the config only when given',
+                    detail_bad=f"`{norm(s)}` under {gs}: a layout given in the config string is lost",
+                    key="LOCK|PLSSDesc.__init__|layout", where=common.loc(init, s),
+                    why=f"`{norm(s)}`: the keyword is passed through a helper that is not decided here")
     ctx.shape('layout' in ctx.fold.get_attr('config.config', 'Config', '_PLSSDESC_ATTRIBUTES'), 'LOCK',
               'layout is a PLSSDesc config attribute')
     p = ctx.repo.func('PLSSDesc.parse')
@@ -206,25 +210,44 @@ def mentions(fi, test, what):
 
 def _once(ctx):
     init = ctx.repo.func('ChunkParser.__init__')
-    t = ' '.join(norm(s) for s in walk_local(init.node) if isinstance(s, ast.stmt))
-    ok = 'handoff' in init.params() and any(
-        isinstance(n, ast.If) and norm(n.test) == 'handoff' and [norm(s) for s in n.body] == ['self.parse_safe()']
-        and [norm(s) for s in n.orelse] == ['self.parse_chunk()'] for n in init.node.body)
-    ctx.shape(ok, 'ONCE', 'ChunkParser: hands off (parse_safe) unless told to stage only')
+    # which value of which parameter makes __init__ stage only (parse_chunk)
+    # instead of staging and handing off (parse_safe)
+    flag = stage_value = None
+    for n_ in init.node.body:
+        if not isinstance(n_, ast.If):
+            continue
+        test, neg = n_.test, False
+        if isinstance(test, ast.UnaryOp) and isinstance(test.op, ast.Not):
+            test, neg = test.operand, True
+        if not (isinstance(test, ast.Name) and test.id in init.params()):
+            continue
+        body, orelse = [norm(x) for x in n_.body], [norm(x) for x in n_.orelse]
+        if body == ['self.parse_safe()'] and orelse == ['self.parse_chunk()']:
+            flag, stage_value = test.id, neg
+        elif body == ['self.parse_chunk()'] and orelse == ['self.parse_safe()']:
+            flag, stage_value = test.id, not neg
+    ctx.shape(flag is not None, 'ONCE', 'ChunkParser: hands off (parse_safe) unless told to stage only')
     # every ChunkParser built inside ChunkParser is a stage-only replacement
     ci = ctx.repo.cls('plss_parse:ChunkParser')
     n = 0
+    pos = [a.arg for a in init.node.args.args][1:]
+    dflt = dict(zip(reversed(pos), reversed([norm(d) for d in init.node.args.defaults])))
     for m in ci.methods.values():
         for c in walk_local(m.node):
             if isinstance(c, ast.Call) and dotted(c.func) == 'ChunkParser':
                 n += 1
-                ho = [norm(k.value) for k in c.keywords if k.arg == 'handoff'] or \
-                    ([norm(c.args[3])] if len(c.args) > 3 else [])
-                ctx.check(ho == ['False'], 'ONCE', f"{m.qualname}: replacement ChunkParser only stages (handoff=False)",
-                          'its lists are copied and handed off once by the ChunkParser it replaces',
-                          "the replacement hands its results to the parent itself and they are handed off again "
-                          "by the original: the fallback tract (and its flags) appear twice",
-                          key=f"ONCE|{m.qualname}|replacement", where=common.loc(m, c))
+                if flag is None:
+                    continue
+                bound = dict(dflt)
+                bound.update({pos[i]: norm(a) for i, a in enumerate(c.args) if i < len(pos)})
+                bound.update({k.arg: norm(k.value) for k in c.keywords if k.arg})
+                got = bound.get(flag)
+                ctx.tri(got == str(stage_value), got == str(not stage_value), 'ONCE',
+                        f"{m.qualname}: replacement ChunkParser only stages ({flag}={stage_value})",
+                        'its lists are copied and handed off once by the ChunkParser it replaces',
+                        "the replacement hands its results to the parent itself and they are handed off again "
+                        "by the original: the fallback tract (and its flags) appear twice",
+                        key=f"ONCE|{m.qualname}|replacement", where=common.loc(m, c))
                 args = [norm(a) for a in c.args]
                 ctx.shape(args[:2] == ['self.text', 'COPY_ALL'], 'ONCE',
                           f"{m.qualname}: the replacement re-parses the whole chunk text as copy_all")
